@@ -912,9 +912,12 @@ class CeiloChunk(AbstractChunk):
         # Loop through every group, and look for sub-layers in it ...
         for ind in range(len(self.groups)):
 
-            # Let's extract the heights of all the hits in this group ...
-            gro_heights = self.data.loc[self.data.loc[:, 'group_id'] ==
-                          self._groups.at[ind, 'cluster_id'], 'height'].to_numpy()
+            # Let's extract the heights of all the hits in this group, ordered in time (most recent
+            # last) exactly as done when computing base heights: this is required by the component
+            # base height calculation of the layering step.
+            in_group = self.data.sort_values('dt').loc[self.data.loc[:, 'group_id'] ==
+                                                       self._groups.at[ind, 'cluster_id']].index
+            gro_heights = self.data.loc[in_group, 'height'].to_numpy()
 
             # Only look for multiple layers if it is worth it ...
             # 1) Layer density is large enough
@@ -964,9 +967,7 @@ class CeiloChunk(AbstractChunk):
             # exceed 100 when many slices are found.
             if ncomp > 1:
                 lid_offset = max(100, int(self._groups['cluster_id'].max()) + 1)
-                self.data.loc[self.data.loc[:, 'group_id'] ==
-                              self._groups.at[ind, 'cluster_id'], 'layer_id'] = \
-                    lid_offset+10*ind+sub_layers_id
+                self.data.loc[in_group, 'layer_id'] = lid_offset+10*ind+sub_layers_id
 
         # Deal with the points that have not been assigned a layer id yet
         to_fill = self.data['layer_id'].isna()
